@@ -770,8 +770,13 @@ func (sched *StdScheduler) fetchAndReschedule() (ScheduledJob, bool, error) {
 	job, err := sched.queue.Pop()
 	if err != nil {
 		if errors.Is(err, ErrQueueEmpty) {
-			// the queue reported a size and a head but has nothing to pop
 			sched.logger.Debug("Queue is empty")
+			// the last job may have been removed after the tick was armed;
+			// nothing to pop is a failure only if the queue still claims
+			// to hold jobs
+			if size, sizeErr := sched.queue.Size(); sizeErr == nil && size == 0 {
+				return nil, false, nil
+			}
 		} else {
 			sched.logger.Error("Failed to fetch a job from the queue", "error", err)
 		}
